@@ -103,7 +103,7 @@ def load_known(prop):
     p = os.path.join(ROOT, "known_findings.json")
     if not os.path.exists(p):
         return []
-    return [k for k in json.load(open(p)).get("findings", []) if k.get("property") == prop and k.get("status") == "open"]
+    return [k for k in json.load(open(p)).get("findings", []) if prop in k.get("properties", []) and k.get("status") == "open"]
 
 def match_known(sig, known):
     for k in known:
